@@ -17,6 +17,7 @@ EXPLANATION = (
     "with MAX_target = MAX_source·(2^BITS+1) so that MAX -> MAX and narrowing(widening(x)) = round(x) = x; narrowing = "
     "cast(clamp(round(x·MAXt/MAXs), 0, MAXt)). into_format/from_format of every colour type map each component through FromStimulus/"
     "FromAngle with field correspondence. Not decided: nearest-integer claims that depend on the floating-point rounding of x·MAX."
+    " CAST-NARROW: f64 -> f32 only as the last step of a conversion to f32; no u32 -> f32 cast."
 )
 
 UINTS = {"u8": 8, "u16": 16, "u32": 32, "u64": 64, "u128": 128}
